@@ -112,7 +112,9 @@ def run(tier, seed):
         rep.bounds["sequences"] = len(jobs)
         rep.states += len(jobs)
     jobs = []
-    for c1, c2 in itertools.product((0, 2, 4, 16), repeat=2):
+    # (chunk sizes of both kinds in both orders: a value cached by one counting call - a mask, a reciprocal - must not
+    #  serve the next one)
+    for c1, c2 in itertools.product((0, 2, 3, 4, 5, 8, 12, 16, 24), repeat=2):
         for p in range(0, 8):
             for l1, l2 in itertools.product((1, 3, 5, 10), repeat=2):
                 jobs.append({"start": p, "calls": [("N", c1, [l1, l2]), ("N", c2, [l2, l1, l2])]})
